@@ -1,5 +1,13 @@
-(* Bit-string library stream: mirror result and specification result. *)
-open Model
+(* Bit-str library stream: mirror result and specification result. *)
+type str = string
+module SL = Stdlib.List
+open Datatypes
+open BinNums
+open Prelude
+open Bits
+open Codec
+open Cell
+open Lexer
 open Conv
 
 (* ownership situation -> value of Rc::strong_count == 1 *)
@@ -12,30 +20,30 @@ let rec firstn k l = if k <= 0 then [] else match l with [] -> [] | x :: r -> x 
 let rec skipn k l = if k <= 0 then l else match l with [] -> [] | _ :: r -> skipn (k-1) r
 
 let after tl =
-  String.concat "" (List.map (fun (hex, own) ->
+  Stdlib.String.concat "" (Stdlib.List.map (fun (hex, own) ->
     if own = "s" || own = "c" then
       " ~" ^ bits_of_cbs (from_bytes (bytes_of_hex hex))
     else "") tl)
 
 let iter8_string l =
   if l = [] then "-" else
-  String.concat "" (List.map (fun (v, n) -> Printf.sprintf "%s:%d," (hex_of_n v) (int_of_nat n)) l)
+  Stdlib.String.concat "" (Stdlib.List.map (fun (v, n) -> Printf.sprintf "%s:%d," (hex_of_n v) (int_of_nat n)) l)
 
 let spec_iter8 (l : bool list) =
-  iter8_string (List.map (fun g -> (bits_to_N g, nat_of_int (List.length g))) (chunk8 l))
+  iter8_string (Stdlib.List.map (fun g -> (bits_to_N g, nat_of_int (Stdlib.List.length g))) (chunk8 l))
 
 (* returns (mirror, spec) *)
-let run (t : string array) : string * string =
+let run (t : str array) : str * str =
   let v i = cbs_of t.(i) t.(i+1) t.(i+2) in
   let own i = t.(i+3) in
-  let aft l = after (List.map (fun i -> (t.(i), t.(i+3))) l) in
+  let aft l = after (Stdlib.List.map (fun i -> (t.(i), t.(i+3))) l) in
   let ios = int_of_string in
   match t.(0) with
   | "bits" ->
     let a = v 1 in
     let m = bits_of_cbs a ^ aft [1] in
     let bl = bits a in
-    let m2 = if bl = [] then "-" else String.concat "" (List.map (fun x -> if x = N0 then "0" else "1") bl) in
+    let m2 = if bl = [] then "-" else Stdlib.String.concat "" (Stdlib.List.map (fun x -> if x = N0 then "0" else "1") bl) in
     (m2 ^ aft [1], m)
   | "iter8" ->
     let a = v 1 in (iter8_string (iter8 a), spec_iter8 (abs a))
@@ -47,7 +55,7 @@ let run (t : string array) : string * string =
   | "read" ->
     let a = v 1 in let n = ios t.(5) in
     let l = abs a in
-    let sp = if n <= List.length l then string_of_bools (firstn n l) ^ "|" ^ string_of_bools (skipn n l)
+    let sp = if n <= Stdlib.List.length l then string_of_bools (firstn n l) ^ "|" ^ string_of_bools (skipn n l)
              else "None|" ^ string_of_bools l in
     let m = match read a (nat_of_int n) with
       | None -> "None|" ^ bits_of_cbs a
@@ -56,7 +64,7 @@ let run (t : string array) : string * string =
   | "peek" ->
     let a = v 1 in let n = ios t.(5) in
     let l = abs a in
-    let sp = if n <= List.length l then string_of_bools (firstn n l) else "None" in
+    let sp = if n <= Stdlib.List.length l then string_of_bools (firstn n l) else "None" in
     (opt bits_of_cbs (peek a (nat_of_int n)) ^ aft [1], sp ^ aft [1])
   | "substr" ->
     let a = v 1 in let s = ios t.(5) and e = ios t.(6) in
@@ -67,7 +75,7 @@ let run (t : string array) : string * string =
   | "split" ->
     let a = v 1 in let i = ios t.(5) in
     let l = abs a in
-    let sp = if i <= List.length l then string_of_bools (firstn i l) ^ "|" ^ string_of_bools (skipn i l) else "None" in
+    let sp = if i <= Stdlib.List.length l then string_of_bools (firstn i l) ^ "|" ^ string_of_bools (skipn i l) else "None" in
     let m = match split_at a (nat_of_int i) with
       | None -> "None" | Some (x, y) -> bits_of_cbs x ^ "|" ^ bits_of_cbs y in
     (m, sp)
@@ -89,16 +97,16 @@ let run (t : string array) : string * string =
     let a = v 1 and b = v 5 in
     let r1 = invert (unique (own 1)) a in
     let r = append true r1 b in
-    (bits_of_cbs r ^ aft [1; 5], string_of_bools (List.map not (abs a) @ abs b) ^ aft [1; 5])
+    (bits_of_cbs r ^ aft [1; 5], string_of_bools (Stdlib.List.map not (abs a) @ abs b) ^ aft [1; 5])
   | "insert" ->
     let a = v 1 and i = ios t.(5) and b = v 6 in
     let l = abs a in
-    let sp = if i <= List.length l then string_of_bools (firstn i l @ abs b @ skipn i l) else "None" in
+    let sp = if i <= Stdlib.List.length l then string_of_bools (firstn i l @ abs b @ skipn i l) else "None" in
     (* split_at clones the handle twice: the left part is never uniquely owned *)
     (opt bits_of_cbs (insert false a (nat_of_int i) b) ^ aft [1; 6], sp ^ aft [1; 6])
   | "invert" ->
     let a = v 1 in
-    (bits_of_cbs (invert (unique (own 1)) a) ^ aft [1], string_of_bools (List.map not (abs a)) ^ aft [1])
+    (bits_of_cbs (invert (unique (own 1)) a) ^ aft [1], string_of_bools (Stdlib.List.map not (abs a)) ^ aft [1])
   | "detach" ->
     let a = v 1 in
     (bits_of_cbs (detach (unique (own 1)) a) ^ aft [1], bits_of_cbs a ^ aft [1])
@@ -108,18 +116,18 @@ let run (t : string array) : string * string =
   | "hex" ->
     let a = v 1 in
     let ds = to_hex_digits a in
-    let m = if ds = [] then "-" else String.concat "" (List.map hex_of_n ds) in
+    let m = if ds = [] then "-" else Stdlib.String.concat "" (Stdlib.List.map hex_of_n ds) in
     (* spec: each 8-bit group prints its value; a group of <= 4 bits prints one digit *)
-    let sp = String.concat "" (List.map (fun g ->
+    let sp = Stdlib.String.concat "" (Stdlib.List.map (fun g ->
         let x = int_of_n (bits_to_N g) in
-        if List.length g > 4 then Printf.sprintf "%02x" x else Printf.sprintf "%x" x) (chunk8 (abs a))) in
+        if Stdlib.List.length g > 4 then Printf.sprintf "%02x" x else Printf.sprintf "%x" x) (chunk8 (abs a))) in
     (m, if sp = "" then "-" else sp)
   | "tobytes" | "bytestr" | "slice" | "pad" ->
     let a = v 1 in
     let l = abs a in
-    let groups = hex_of_bytes (List.map bits_to_N (chunk8 l)) in
+    let groups = hex_of_bytes (Stdlib.List.map bits_to_N (chunk8 l)) in
     let aligned = (int_of_nat a.cstart) mod 8 = 0 in
-    let whole = (List.length l) mod 8 = 0 in
+    let whole = (Stdlib.List.length l) mod 8 = 0 in
     (match t.(0) with
      | "tobytes" -> (opt hex_of_bytes (to_bytes a), if whole then groups else "None")
      | "bytestr" -> (opt hex_of_bytes (bytestr a), if whole then groups else "None")
@@ -128,8 +136,8 @@ let run (t : string array) : string * string =
   | "fromhex" ->
     (* digits only (whitespace and errors are exercised through the lexer stream) *)
     let s = if t.(1) = "-" then "" else t.(1) in
-    let ds = List.init (String.length s) (fun i -> n_of_int (hexval s.[i])) in
-    let sp = List.concat (List.map (fun d ->
+    let ds = Stdlib.List.init (Stdlib.String.length s) (fun i -> n_of_int (hexval s.[i])) in
+    let sp = Stdlib.List.concat (Stdlib.List.map (fun d ->
         let x = int_of_n d in [x land 8 <> 0; x land 4 <> 0; x land 2 <> 0; x land 1 <> 0]) ds) in
     (bits_of_cbs (from_hex ds), string_of_bools sp)
   | "frombin" ->
@@ -138,11 +146,11 @@ let run (t : string array) : string * string =
   | "touint" ->
     let a = v 2 in
     (hex_of_z (to_uint (ord t.(1)) a),
-     if List.length (abs a) <= 128 then hex_of_z (spec_uint (ord t.(1)) (abs a)) else "-")
+     if Stdlib.List.length (abs a) <= 128 then hex_of_z (spec_uint (ord t.(1)) (abs a)) else "-")
   | "toint" ->
     let a = v 2 in
     (hex_of_z (to_int (ord t.(1)) a),
-     if List.length (abs a) <= 128 then hex_of_z (spec_int (ord t.(1)) (abs a)) else "-")
+     if Stdlib.List.length (abs a) <= 128 then hex_of_z (spec_int (ord t.(1)) (abs a)) else "-")
   | "fromint" ->
     let o = ord t.(1) and value = z_of_hex t.(2) and w = ios t.(3) in
     let r = from_int value (nat_of_int w) o in
@@ -157,8 +165,8 @@ let run (t : string array) : string * string =
     let whole = append true (append true pre field) suf in
     let f = { whole with cstart = nat_of_int off; cend = nat_of_int (off + w) } in
     let m = if signed then hex_of_z (to_int o f) else hex_of_z (to_uint o f) in
-    let two_w = Z.pow (z_of_int 2) (z_of_int w) in
-    let u = Z.modulo value two_w in
+    let two_w = BinInt.Z.pow (z_of_int 2) (z_of_int w) in
+    let u = BinInt.Z.modulo value two_w in
     let sp = if signed then hex_of_z (sext (nat_of_int w) u) else hex_of_z u in
     (m, sp)
   | "layout" ->
